@@ -164,9 +164,9 @@ def _get_paired_crop(
     """
     assert prediction_arr.shape == reference_arr.shape
 
-    combined = prediction_arr + reference_arr
-    if combined.sum() == 0:
-        combined += 1
+    combined = np.logical_or(prediction_arr != 0, reference_arr != 0)
+    if not combined.any():
+        combined = np.ones_like(combined)
     return _get_bbox_nd(combined, px_dist=px_pad)
 
 
